@@ -2,36 +2,26 @@ package main
 
 import (
 	"fmt"
+	"strings"
 
 	"verifharness/chain"
 	"verifharness/run"
-	"verifharness/scen"
+	_ "verifharness/scen"
 )
 
 type probe struct{}
 
 func (probe) AfterCommit(w *chain.World, blk *chain.BlockRecord) {
 	for _, t := range blk.Txs {
-		if t.MsgType() == "/cosmos.gov.v1.MsgSubmitProposal" && !t.OK() {
-			fmt.Printf("h=%d submit failed: %.300s\n", blk.Height, t.Result.Log)
-		}
-	}
-	for _, e := range blk.Res.Events {
-		if e.Type == "active_proposal" || e.Type == "proposal_failed" {
-			s := ""
-			for _, a := range e.Attributes {
-				s += a.Key + "=" + a.Value + " "
-			}
-			if len(s) > 0 {
-				fmt.Printf("h=%d %s %.400s\n", blk.Height, e.Type, s)
-			}
+		mt := t.MsgType()
+		if (strings.Contains(mt, "CreateAssetInfo") || strings.Contains(mt, "AddEntry") || strings.Contains(mt, "Uncommit") && blk.Height>100 || strings.Contains(mt, "MsgBond") && len(t.Fee) > 0) && !t.OK() {
+			fmt.Printf("h=%d %s failed: %.300s\n", blk.Height, mt, strings.SplitN(t.Result.Log, "\n", 2)[0])
 		}
 	}
 }
 
 func main() {
-	_ = scen.MixAll
-	j := run.Job{Prop: "C18", Scenario: "faults", Index: 9, Seed: 1, Tier: "quick"}
+	j := run.Job{Prop: "C18", Scenario: "faults", Index: 8, Seed: 1, Tier: "quick"}
 	run.AttachHook = func(w *chain.World) { w.AddProbe(probe{}) }
 	r := run.RunJob(j)
 	fmt.Println(r.NViolations)
